@@ -12,11 +12,13 @@ theorem facts_C15 : holdsAll expectedC15 = true := by decide
 variables of the packages this property's code lives in, the functions (other than `init`) that
 assign to them or call methods on them, and the fields of the property's struct types. The model is
 a pure function of the arguments and of these fields; a new variable, writer or field is state the
-model does not know of. The digest-valued entries cover, per package: every declared function and
-method with its receiver kind (`funcs:`), every function-reads-package-variable pair (`reads:`) and
-every write through a parameter or receiver, including in-place `sort.*`/`copy` (`pwrites:`); the
-lists behind the digests are in `funcs_expected.txt` and in comments of the generated file. -/
-def stateC15 : List (String × String) := [("globals:fit", ""), ("globalwrites:fit", ""), ("fields:fit.PolynomialRegressionResult", "Coefficients:[]float64 F:func(xfloat64)float64"), ("fields:fit.pairSlice", "xs:[]float64 ys:[]float64"), ("funcs:fit", "n=7 fnv64a=f65a921a2a760cf0"), ("reads:fit", "n=0 fnv64a=cbf29ce484222325"), ("pwrites:fit", "n=2 fnv64a=d9d8e72bd50da078")]
+model does not know of. The digest-valued `shape:` entry covers everything the call graph
+(resolved by go/types) reaches from the functions declared in the property's anchor files: per
+function, method (with receiver kind), package variable and constant, its numeric literals, the
+package variables it reads and its writes through parameters or the receiver (including in-place
+`sort.*`/`copy`/`append`). The entries behind the digest are in `shape_expected.txt` and in a
+comment of the generated file. -/
+def stateC15 : List (String × String) := [("globals:fit", ""), ("globalwrites:fit", ""), ("fields:fit.PolynomialRegressionResult", "Coefficients:[]float64 F:func(xfloat64)float64"), ("fields:fit.pairSlice", "xs:[]float64 ys:[]float64"), ("shape:C15", "n=7 fnv64a=3b17868e204dba59")]
 
 /-- the source has exactly the package-level variables, writers and struct fields the model accounts for -/
 theorem state_C15 : holdsAll stateC15 = true := by decide +kernel
